@@ -5,6 +5,9 @@ HERE = os.path.dirname(os.path.dirname(os.path.abspath(__file__)))
 ALL = ["C%02d" % i for i in range(1, 21)]
 
 CHECKS = {
+ "C14": dict(cat="exploration", tech="history monitor at the client boundary (call/return per caller thread, token-carrying fabricated responses) over the real NetworkClient on harness-owned in-memory streams; logical hang criterion (no live listener task); real-TCP race scenarios under sys.monitoring yield injection",
+   text="The real NetworkClient is driven over in-memory streams on which the harness plays the server: all arrival orders of up to three concurrent calls x fragmentation patterns x cut classes (inside id / length / body, between frames, none) x number of responses delivered before the loss x loss before send x a locally initiated close acknowledged while calls are unanswered x a late call after the loss. Every caller must return exactly its own response or raise; a caller still blocked when no listener task exists is a hang. Real loopback pairs (server evaluation fails, .clic and .srv(0) racing with pending calls, call after close) run under seeded yield injection on the multi-threaded lines. Held on the scenarios observed; 'never hangs' is decided as logical quiescence, not by a proof.",
+   note="the exception type of a failed call is not prescribed; real-TCP scenarios each run in their own process (module-level server singleton).", ref="DESIGN.md §4 C14"),
  "C13": dict(cat="exploration", tech="twin differential monitor (live server over real loopback TCP + client in one process vs a local twin of the server) and an exhaustive stream-fragmentation monitor on the real stream_recv_msg fed through a real asyncio.StreamReader",
    text="Generated sequences of remote operations (f(\"expr\"), f(:name,args), proxy calls, remote dictionary set/get, symbol fetch, :_ of remote results) over the transportable universe run against a live server and are mirrored on a twin interpreter; client-side results must equal the twin's. Separately, for sets of one to three consecutive frames every cut of the byte stream into up to three reads (exhaustive below 120 bytes) is fed to the real reader: messages must come out intact, in order, and never before their last byte arrived. Held on what was observed.",
    note="one IPC server per process (module singleton); functions travel as proxies by design and are not compared; the harness reconnects after a server-side failure tore the connection down (C14's subject).", ref="DESIGN.md §4 C13"),
